@@ -35,6 +35,7 @@ func walkTemplates(name string, full bool) []*rstep.ANode {
 	add := func(n *rstep.ANode) { ts = append(ts, n) }
 	add(&rstep.ANode{NoBranches: true})                                                                                                          // terminal
 	add(&rstep.ANode{Type: "message", Branches: []rstep.ABranch{}})                                                                              // eats every message, never moves
+	add(&rstep.ANode{Type: "message", Branches: []rstep.ABranch{{Target: next}}})                                                                // a gate: any message opens it, nothing else does
 	add(&rstep.ANode{Action: prog(true, Op{K: actlang.Set, A: "s", V: name}), Branches: []rstep.ABranch{{Pattern: M{"zz": 1.0}, Target: next}}}) // action node that follows no branch
 	for _, x := range walkNodes {
 		for _, y := range ys {
